@@ -43,6 +43,7 @@ Expected(c) ==
       [] c.kind = "time" -> TemporalOverlap(c.g1, c.g2, c.abs, c.rel)
       [] c.kind = "freq" -> FrequencyOverlap(c.g1, c.g2, c.abs, c.rel)
       [] c.kind = "clip" -> InClip(c.g, c.clip, c.m)
+      [] c.kind = "clipfar" -> InClip(c.g, c.clip, c.m)      \* same predicate; the binder uses a fine unit far from time 0
 
 (***************************************************************************)
 (* Acceptance of one observation o = [in |-> case, out |-> [r, rs]]:       *)
